@@ -456,9 +456,12 @@ def k9_k10(F, rep, contracts):
                 for alt in pat_alternatives(a["pat"]):
                     if (pat_variant(alt) or "").endswith("Option::None"):
                         none_err = tc.is_err_value(a["body"])
+    import c05
+    none_err = none_err or c05.resolver_guarantees_start(F)
     rep.ob("CONTRACT", "K10|absent=>Err", none_err,
-           "TypeChecker::solve returns an error when no global named `start` exists, so intermediate::compile's "
-           "`.find(..).unwrap()` with the same predicate cannot meet None", tsolve["sp"])
+           "a missing `start` is an error before the lowering runs (name resolution only accepts a variable defined in the main "
+           "file, or TypeChecker::solve has the error arm), so intermediate::compile's `.find(..).unwrap()` with the same "
+           "predicate cannot meet None", tsolve["sp"])
     tnew = F.fn(TCP + "new")
     fields = {f["name"]: pp(peel_clone(f["e"])) for s in nodes(fn_body(tnew), "Struct") if s["path"].endswith("TypeVariable") for f in s["fields"]}
     rep.ob("CONTRACT", "K10|variables-copied", fields.get("name") == "var.name" and fields.get("is_global") == "var.is_global",
